@@ -170,6 +170,10 @@ func c13World(t *testing.T, r *simcore.Run) any {
 		tamperRate = uint64(100 + tp.Intn(500, "tamperrate"))
 	}
 	tampered := map[uint64]string{}
+	repliesByCause := map[uint64]int{}
+	fwdToRouter := 0 // datagrams the client side's forwarder sent back towards the router
+	throwaway := ntske.NewProvider()
+	oddAuth := map[uint64]bool{} // crafted requests with an authenticator option of odd length
 	nreplies, nverified, nrejected := 0, 0, 0
 	// ---- the router: record, tamper
 	w.onRouter = func(p *scionPkt) (bool, []byte) {
@@ -285,6 +289,12 @@ func c13World(t *testing.T, r *simcore.Run) any {
 		}
 		switch d.SrcConn.Host() {
 		case w.cli:
+			if d.SrcConn.Local().Port() == scEndhost {
+				if d.Dst.Port() == scRouterPort {
+					fwdToRouter++
+				}
+				return
+			}
 			curAttemptReq = d
 		case w.srv:
 			if d.Dst.Port() != scRouterPort {
@@ -293,6 +303,10 @@ func c13World(t *testing.T, r *simcore.Run) any {
 				return
 			}
 			nreplies++
+			repliesByCause[d.Cause]++
+			if oddAuth[d.Cause] {
+				return // judged by the driver
+			}
 			// the request this reply answers, as the listener received it
 			cause := w.net.Delivered(d.Cause)
 			if cause == nil {
@@ -434,7 +448,50 @@ func c13World(t *testing.T, r *simcore.Run) any {
 				w.dc.failHostAS = true
 				r.Fault("drkey-daemon-unavailable")
 			}
-			switch tp.Intn(7, "action") {
+			switch tp.Intn(9, "action") {
+			case 8: // the client side's forwarder is no time server: it relays SCION/UDP or stays silent
+				if !w.useForwarder {
+					continue
+				}
+				l4 := []uint16{0, 0, 12345, 123}[tp.Intn(4, "fwd-l4")]
+				pld := make([]byte, 48)
+				pld[0] = 0x23
+				pld[40] = byte(k + 1)
+				if tp.Bool(1, 2, "fwd-nts") {
+					pld = c09ValidNTS(pld, throwaway)
+				}
+				raw := buildSCION(scSrvIA, scCliIA, scSrvIP, scCliIP, 41000, l4, segLens, 0, pld)
+				n0 := fwdToRouter
+				w.net.Inject(w.net.NewDatagram(netip.AddrPortFrom(netip.MustParseAddr(scRouterIP(0)), scRouterPort),
+					netip.AddrPortFrom(netip.MustParseAddr(scCliIP), scEndhost), raw, "crafted: request to the forwarder"), 40*time.Microsecond)
+				if r.Sleep(fmt.Sprintf("fwdreq:%d", k), w.cli.Node, 5*time.Millisecond).Killed {
+					return
+				}
+				if fwdToRouter != n0 {
+					r.Fail("C13", "forward/forwarder-answered", "the end-host forwarder answered a SCION/UDP packet for L4 port %d itself (%d datagram(s) back to the router)", l4, fwdToRouter-n0)
+					return
+				}
+				r.Probe("forwarder-stayed-a-forwarder")
+			case 7: // a request whose authenticator option (client SPI, the algorithm) is cut short or overlong
+				req := make([]byte, 48)
+				req[0] = 0x23
+				req[40] = byte(k + 1)
+				alen := []int{5, 12, 16, 20, 24, 27, 29, 40}[tp.Intn(8, "authlen")]
+				raw := c08SCIONPacket(tp, scSvcPort, segLens, alen, -1, req)
+				d := w.net.NewDatagram(netip.AddrPortFrom(netip.MustParseAddr(scRouterIP(0)), scRouterPort),
+					netip.AddrPortFrom(netip.MustParseAddr(scSrvIP), scSvcPort), raw, "crafted: authenticator of odd length")
+				oddAuth[d.ID] = true
+				w.net.Inject(d, 40*time.Microsecond)
+				if r.Sleep(fmt.Sprintf("odd:%d", k), w.cli.Node, 5*time.Millisecond).Killed {
+					return
+				}
+				// a MAC that is not all there verifies under no key: with authentication on at the
+				// listener such a request is never served
+				if srvAuth && !w.dc.failHostAS && repliesByCause[d.ID] != 0 {
+					r.Fail("C13", "request/bad-mac-served", "a request whose authenticator option carries %d bytes (client SPI and algorithm, the MAC cut short or overlong) was answered", alen)
+					return
+				}
+				r.Probe("authenticator-of-odd-length")
 			case 6: // a plain NTP request from a scripted host (possibly of the other address family)
 				req := make([]byte, 48)
 				req[0] = 0x23
